@@ -243,8 +243,10 @@ fn hostile_text(seed: u64, idx: u64) -> (String, &'static str) {
         }
         _ => {
             let digits: String = (0..rng.range(1, 40)).map(|_| char::from(b'0' + rng.below(10) as u8)).collect();
+            // literal path segments with complete, truncated and malformed percent escapes
+            let seg = *rng.pick(&["a", "a%2", "%A", "50%", "%zz", "%", "%%", "caf%C3%A9", "%C3", "%2", "a%2/b", "%7Bx%7D", "%00", "x%"]);
             (
-                format!("let a = {digits};\nres / on get -> <status={digits}, {{}}> `description: \"{}\"`;\n", rng.pick(&["é😉", "a: b", "\\", "[", "*x"])),
+                format!("let a = {digits};\nres /{seg} on get -> <status={digits}, {{}}> `description: \"{}\"`;\nres concat /p/{seg} /{seg} on put -> <>;\n", rng.pick(&["é😉", "a: b", "\\", "[", "*x"])),
                 "numbers-and-yaml",
             )
         }
